@@ -67,22 +67,26 @@ def run(rep: vk.Report):
     paths = {}
     asym = 0
     errors = {}
-    for i in range(n):
+    fixed = common.vectorised_worklist()
+    for i in range(n + len(fixed)):
         r = random.Random(rng.random())
         g = gen.Gen(r, profile=r.choice(["poly", "smooth", "smooth"]), pool=gen.Pool(r, with_matrices=(r.random() < 0.3)))
-        try:
-            e = twice_diff(g, r)
-        except Exception:
-            continue
-        vs = sorted(e.get_variables(), key=_variable_order_key)
-        if not vs or len(vs) > 4:
-            continue
-        V = list(vs)
-        mode = r.random()
-        if mode < 0.3:
-            r.shuffle(V)
-        elif mode < 0.5:
-            V = V + [Variable("extra0")]
+        if i < len(fixed):
+            e, V = fixed[i][0], list(fixed[i][1])
+        else:
+            try:
+                e = twice_diff(g, r)
+            except Exception:
+                continue
+            vs = sorted(e.get_variables(), key=_variable_order_key)
+            if not vs or len(vs) > 4:
+                continue
+            V = list(vs)
+            mode = r.random()
+            if mode < 0.3:
+                r.shuffle(V)
+            elif mode < 0.5:
+                V = V + [Variable("extra0")]
         S = ser.Ser()
         C._compile_cached.cache_clear()
         try:
